@@ -53,6 +53,9 @@ def trial(sid):
 
 
 out = {}
+if args and os.path.exists(V + "/seeded/MATRIX.json"):
+    # a partial run updates the entries of the seeds it was given
+    out = json.load(open(V + "/seeded/MATRIX.json")).get("seeds", {})
 with concurrent.futures.ThreadPoolExecutor(jobs) as ex:
     for sid, r in ex.map(trial, ids):
         out[sid] = r
